@@ -5,8 +5,10 @@ package main
 // A Doc is JSON-serialisable (it is the worker input and the replay content).
 
 import (
+	"math"
 	"regexp"
 	"sort"
+	"strconv"
 	"strings"
 )
 
@@ -155,8 +157,8 @@ func (d *Doc) UserCSS() []string {
 // ---------------------------------------------------------------- features
 
 var (
-	identRe = regexp.MustCompile(`[a-zA-Z_@-][a-zA-Z0-9_-]*\(?`)
-	numRe   = regexp.MustCompile(`^-?[0-9.]`)
+	identRe   = regexp.MustCompile(`[a-zA-Z_@-][a-zA-Z0-9_-]*\(?`)
+	numFullRe = regexp.MustCompile(`^[-+]?([0-9]+\.?[0-9]*|\.[0-9]+)([eE][-+]?[0-9]+)?`)
 )
 
 type featureSet map[string]bool
@@ -203,16 +205,25 @@ func declFeatures(f featureSet, ds []Decl, where string, fine bool) {
 				}
 				f.add("kw:" + name + "=" + strings.ToLower(t))
 			}
-			for _, w := range strings.Fields(d.V) {
-				if numRe.MatchString(w) {
-					switch {
-					case strings.HasPrefix(w, "-"):
-						f.add("num:" + name + "=negative")
-					case strings.HasPrefix(w, "0") && !strings.HasPrefix(w, "0."):
-						f.add("num:" + name + "=zero")
-					case len(w) > 6:
-						f.add("num:" + name + "=huge")
-					}
+			for _, w := range strings.FieldsFunc(d.V, func(r rune) bool { return r == ' ' || r == ',' || r == '(' || r == ')' || r == '/' }) {
+				m := numFullRe.FindString(w)
+				if m == "" {
+					continue
+				}
+				v, err := strconv.ParseFloat(m, 64)
+				if err != nil {
+					continue
+				}
+				switch {
+				case math.Abs(v) >= 1e6 || math.IsInf(v, 0):
+					f.add("num:" + name + "=astronomic")
+					f.add("astronomic-number")
+				case v < 0:
+					f.add("num:" + name + "=negative")
+				case v == 0:
+					f.add("num:" + name + "=zero")
+				case v >= 1e4:
+					f.add("num:" + name + "=large")
 				}
 			}
 		}
